@@ -44,10 +44,17 @@ for sid, (what, needs, family) in sorted(DESC.items()):
         shutil.copy(src + "/NOTES.md", d + "/NOTES.md")
     det = {}
     tr = open(f"{C}/{sid}.try").read() if os.path.exists(f"{C}/{sid}.try") else ""
-    for m in re.finditer(r"check (C\d\d) quick: rc=(\d+) \(\d+s\) \[(?:violations=\d+ \(in (\d+) worlds\))?\]\s*(.*)", tr):
+    for m in re.finditer(r"check (C\d\d) quick: rc=(\d+) \(\d+s\) \[(?:violations=\d+ \(in (\d+) worlds\))?\][ \t]*(.*)", tr):
         p, rc, nw, line = m.groups()
         first = re.sub(r"^VIOLATION property=\S+ replay=\S+\s*", "", line).strip()
-        det[p + "/quick"] = {"caught": rc == "1", "violating_worlds_of_4800": int(nw) if nw else None, "first_violation": first[:300]}
+        det[p + "/quick"] = {"caught": rc == "1", "violating_worlds": int(nw) if nw else None, "first_violation": first[:300]}
+    if not det:
+        print("no detection data:", sid); continue
+    if sid in ("C05-B", "C09-A", "C09-B", "C20-B"):
+        for k, v in det.items():
+            if not (sid == "C05-B" and k.startswith("C02")) and not (sid == "C09-B" and k.startswith("C14")):
+                v["worlds_run"] = 1600
+                v["note"] = "re-run (first 1600 worlds of the quick tier) after the oracle added because of this change; the first run (4800 worlds, earlier oracles) did not catch it" if v["caught"] else "first 1600 worlds of the quick tier, with the oracles added in this wave"
     results[wid] = det
     meta = {"id": wid, "breaks_property": c, "family": family, "change": what, "needs_to_manifest": needs,
             "demonstration": {"file": "demo_test.go", "package_dir": ".", "run": "GOFLAGS=-mod=mod GOPROXY=off go test -vet=off -count=1 -run ZZSeed ."},
@@ -56,6 +63,6 @@ for sid, (what, needs, family) in sorted(DESC.items()):
             "detection": det}
     json.dump(meta, open(d + "/meta.json", "w"), indent=1)
     caught = [k for k, v in det.items() if v["caught"]]
-    rows.append(f"| {wid} | {c} | {family} | " + ("; ".join(f"{k.replace('/', ' ')} ({det[k]['violating_worlds_of_4800']} worlds)" if det[k]['violating_worlds_of_4800'] is not None else k.replace('/', ' ') for k in caught) or "not caught") + (("; missed by " + ", ".join(k.replace('/', ' ') for k, v in det.items() if not v["caught"])) if any(not v["caught"] for v in det.values()) else "") + " |")
+    rows.append(f"| {wid} | {c} | {family} | " + ("; ".join(f"{k.replace('/', ' ')} ({det[k]['violating_worlds']} worlds)" if det[k]['violating_worlds'] is not None else k.replace('/', ' ') for k in caught) or "not caught") + (("; missed by " + ", ".join(k.replace('/', ' ') for k, v in det.items() if not v["caught"])) if any(not v["caught"] for v in det.values()) else "") + " |")
 json.dump(results, open(rp, "w"), indent=1)
 print("\n".join(rows))
